@@ -371,7 +371,9 @@ def run(pid, tier, seed, replay):
     if thorough:
         for f in THOROUGH[pid]:
             if f in EXHAUSTIVE:
-                plans.append((f, False, 0, 0, 0))       # every state, every successful transition, whole alphabet at every state
+                # every state, every successful transition, whole alphabet at every state (C07 runs every step five
+                # times, so there the whole alphabet is tried at a seeded sample of 15 000 states)
+                plans.append((f, False, 0, 0, 15000 if pid == "C07" else 0))
             else:
                 plans.append((f, True, 320, 40 if f == "EL" else 32, 1500))
     else:
